@@ -1,6 +1,7 @@
 //! Recorder: drives the real exmex library and records what it did.  It contains no oracle: the only
 //! comparison it makes is "identical, as a JSON value, to what TLC printed"; everything else is
 //! forwarded to the TLC judges.
+mod counted;
 mod dynops;
 mod expr;
 mod fuzz;
@@ -22,6 +23,7 @@ fn main() {
         "fuzz-expr" => fuzz::main(rest),
         "lex" => lex::main(rest),
         "tracker" => tracker::main(rest),
+        "consume" => counted::main(rest),
         "tables" => fuzz::main_tables(rest),
         _ => {
             eprintln!("usage: recorder <expr> [options]");
